@@ -99,3 +99,52 @@ def devices_are_processed_whatever_callbacks_do(tq, telegram):
 
     run(tq.process_telegram_incoming(telegram))
     assert ghost("devices") == [telegram]
+
+
+# ------------------------------------------------------------------ stand-in: callbacks with real address filters
+
+from fnmatch import fnmatchcase  # noqa: E402
+
+from pyvc.api import standin  # noqa: E402
+from xknx.telegram.address_filter import AddressFilter  # noqa: E402
+
+
+def _real_filter_cases(tier, **fixed):
+    group_patterns = ["1/2/3", "1/2/*", "1/*/3-5", "*/*/*", "2-3/0-1/255", "1/2/-3", "1/2/3-"]
+    internal_patterns = ["i-test", "i-t?st", "i-Living*", "i-TEST", "i-*"]
+    groups = [GroupAddress(r) for r in ((1 << 11) + (2 << 8) + 3, (1 << 11) + (2 << 8) + 4, (1 << 11) + (7 << 8) + 5, (2 << 11) + 255, (3 << 11) + (1 << 8) + 255, 1)]
+    internals = [InternalGroupAddress(n) for n in ("i-test", "i-tast", "i-LivingRoom", "i-livingroom", "i-TEST", "i-Test")]
+    for p in group_patterns + internal_patterns:
+        for dst in groups + internals:
+            for outgoing in (False, True):
+                for match_outgoing in (False, True):
+                    yield (p, dst, outgoing, match_outgoing)
+
+
+def _ref_level(part, v):
+    for item in part.split(","):
+        if item == "*":
+            return True
+        if "-" in item:
+            lo, hi = item.split("-")
+            lo, hi = (int(lo) if lo else 0), (int(hi) if hi else 65535)
+            if min(lo, hi) <= v <= max(lo, hi):
+                return True
+        elif int(item) == v:
+            return True
+    return False
+
+
+@standin("C34", cases=_real_filter_cases, kind="enum-native", exhaustive=True, bound="12 filter patterns (3-level group patterns with ranges/wildcards; internal globs in lower and mixed case) x 12 destinations (6 group, 6 internal addresses differing in case) x direction x match_for_outgoing: a callback registered with the real AddressFilter is called iff the reference semantics of the pattern says so")
+def callback_with_a_real_filter_sees_exactly_its_telegrams(pattern, dst, outgoing, match_outgoing):
+    calls = []
+    cb = TelegramQueue.Callback(calls.append, address_filters=[AddressFilter(pattern)], match_for_outgoing_telegrams=match_outgoing)
+    t = Telegram(destination_address=dst, direction=TelegramDirection.OUTGOING if outgoing else TelegramDirection.INCOMING)
+    if pattern.startswith("i"):
+        want = isinstance(dst, InternalGroupAddress) and fnmatchcase(dst.raw, InternalGroupAddress(pattern).raw)
+    else:
+        parts = pattern.split("/")
+        want = isinstance(dst, GroupAddress) and _ref_level(parts[0], dst.raw >> 11) and _ref_level(parts[1], (dst.raw >> 8) & 7) and _ref_level(parts[2], dst.raw & 255)
+    if outgoing and not match_outgoing:
+        want = False
+    assert cb.is_within_filter(t) == bool(want), (pattern, str(dst), outgoing, match_outgoing)
